@@ -103,6 +103,16 @@ Theorem model_equivariant_c12_moral_sep :
 Proof. exact Equiv_C12.moral_sep_rmap. Qed.
 Print Assumptions model_equivariant_c12_moral_sep.
 
+Theorem model_order_free_c12_moral_sep :
+  forall (g g' : mgraph) (X X' Y Y' Z Z' : list nat),
+  gequiv g g' ->
+  (forall a : nat, In a X <-> In a X') ->
+  (forall a : nat, In a Y <-> In a Y') ->
+  (forall a : nat, In a Z <-> In a Z') ->
+  incl X (V g) -> incl Y (V g) -> incl Z (V g) -> moral_sep g X Y Z = moral_sep g' X' Y' Z'.
+Proof. exact Equiv_C12.moral_sep_gequiv. Qed.
+Print Assumptions model_order_free_c12_moral_sep.
+
 Theorem spec_equivariant_c12_in_domain :
   forall f : nat -> nat, injective f -> forall g : mgraph, in_domain (rmap f g) <-> in_domain g.
 Proof. exact Equiv_C12.in_domain_rmap. Qed.
